@@ -31,6 +31,15 @@ def exc_diff(spec, mods, exc):
     )
 
 
+def branch_into_data(E):
+    for key, rec in E.insns.items():
+        if rec["uid"][0] == "patch" and rec["ins"][0] in ("jmp", "jcc", "call", "callplt"):
+            tgt = E.labels.get(rec["ins"][1])
+            if isinstance(tgt, tuple) and (tgt not in E.insns or E.insns[tgt]["bk"] != "c"):
+                return True
+    return False
+
+
 def is_documented_refusal(exc):
     return isinstance(exc, AssertionError) and "modifications overlap" in str(exc)
 
@@ -84,7 +93,7 @@ ASPECTS = {
     "bytes": lambda E, O: C.bytes_diffs(E, O),
     "labels": lambda E, O: C.label_diffs(E, O, roles=getattr(E, "label_roles", None)),
     "edges": lambda E, O: C.edge_diffs(E, O, getattr(E, "spec", None)),
-    "functions": lambda E, O: C.function_diffs(E, O),
+    "functions": lambda E, O: C.function_diffs(E, O) + C.functable_diffs(E, O),
     "symexprs": lambda E, O: C.symexpr_diffs(E, O),
     "ann": lambda E, O: C.ann_diffs(E, O),
 }
@@ -99,12 +108,20 @@ def run_scenario(spec, mods, aspects, problem_kinds=(), want_world=False):
     if exc is not None:
         if expect is not None and is_documented_refusal(exc):
             return "refused-as-documented", [], w, E, None
+        if branch_into_data(E) and type(exc).__name__ == "UnsupportedAssemblyError" and "data blocks" in str(exc):
+            # a patch branches to / calls a label that (after the deletions of this very request)
+            # designates data or the end of the section: refusing that is documented behaviour
+            return "refused-branch-into-data", [], w, E, None
         return "raised:" + type(exc).__name__, [exc_diff(spec, mods, exc)], w, E, None
     O = Lg.observe(w)
     diffs = []
     for a in aspects:
         diffs.extend(ASPECTS[a](E, O))
-    diffs.extend(C.structure_problems(O, set(problem_kinds) if problem_kinds else None) if problem_kinds != () else [])
+    probs = C.structure_problems(O, set(problem_kinds) if problem_kinds else None) if problem_kinds != () else []
+    for pr in probs:
+        if pr["kind"] == "control-transfer-buried-in-block":
+            pr["r_cause"] = "+".join(C.ret_causes(E, spec))
+    diffs.extend(probs)
     outcome = "ok" if not diffs else "diff:" + ",".join(sorted({d["kind"] for d in diffs}))
     if expect is not None:
         outcome = "accepted-overlap;" + outcome
